@@ -126,6 +126,11 @@ def make_case(gen, rng):
         oi = cols.index("onset")
         k = rng.randrange(1, len(b["rows"]))
         b["rows"][k][oi] = b["rows"][k - 1][oi]          # two rows share an onset
+    if "onset" in cols and rng.random() < 0.2 and len(b["rows"]) >= 2:
+        # a row without a time (n/a onset), anywhere in the file; what it holds is validated like any row, and
+        # temporal tags in it are reported on that very row
+        oi = cols.index("onset")
+        b["rows"][rng.randrange(len(b["rows"]))][oi] = "n/a"
     if kind.startswith("spreadsheet"):
         b = dict(b, sidecar={}, kinds={})
     return dict(kind=kind, bundle=b, defs=defs, faults=faults)
@@ -207,7 +212,10 @@ def check_case(case, rec):
         issues = obj.validate(schema, extra_def_dicts=dd)
     except Exception as ex:  # noqa
         key = None
-        if case["kind"].endswith("-labels"):
+        if type(ex).__name__ == "ValueError" and "onset" in cols and any(
+                row[cols.index("onset")] in ("n/a", "") for row in b["rows"]):
+            key = "delay-in-timeless-row"
+        elif case["kind"].endswith("-labels"):
             key = "frame-index-not-default"
         elif case["kind"] == "spreadsheet-xlsx" and type(ex).__name__ == "TypeError":
             key = "xlsx-empty-cell"
@@ -293,6 +301,25 @@ def check_case(case, rec):
         if want != got:
             rec.violation("error codes of a row differ between file-level and string-level validation",
                           dict(case, row=r, text=text, string_level=want, file_level=got))
+    # ---- rows without a time: a temporal tag (Onset/Offset/Inset/Delay/Duration) is reported there and only there
+    if onsets is not None:
+        import re as _re
+        timeless = [r for r in range(n) if onsets[r] in ("n/a", "")]
+        if timeless:
+            temporal = _re.compile(r"(^|[/,( ])(onset|offset|inset|delay/|duration/)", _re.I)
+            for r in range(n):
+                if all_cell_errs.get(r):
+                    continue
+                banned_here = [i for i in issues if i.get("ec_row") == r + 2 and i["code"] == "TEMPORAL_TAG_ERROR"
+                               and "without an 'Onset' column and a time" in i["message"]]
+                rec.mon("timeless-row-temporal-tags")
+                has_temporal = bool(temporal.search(series[r] or ""))
+                if r in timeless and has_temporal and not banned_here:
+                    rec.violation("a temporal tag in a row without a time is not reported on that row", dict(case, row=r),
+                                  key="timeless-row-mislabelled")
+                if r not in timeless and banned_here:
+                    rec.violation("a row that has a time is told that it has none", dict(case, row=r),
+                                  key="timeless-row-mislabelled")
     # ---- faults are located (rows with a unique onset whose other cells are clean)
     for f in case["faults"]:
         if not case["kind"].startswith("spreadsheet") and "HED" in tables.refs_of(b):
@@ -311,7 +338,12 @@ def check_case(case, rec):
     if onsets is not None and len(set(onsets)) == n and n >= 2:
         rng = __import__("random").Random(json.dumps(b["rows"]))
         base = sorted(issue_key(i, lambda x: x - 2) for i in issues)
-        order0 = [float(o) for o in onsets]
+        def _num(o):
+            try:
+                return float(o)
+            except ValueError:
+                return float("nan")              # a row without a time: the file counts as not ordered ("and defined")
+        order0 = [_num(o) for o in onsets]
         for _ in range(case.get("perms", 2)):
             perm = list(range(n))
             rng.shuffle(perm)
